@@ -1,5 +1,67 @@
-From LC Require Import Query.
+(* C13 — Cell and transaction queries are exact views of the index.
+   Model: Model/Query.v, byte level: keys are the bytes Key::into_vec builds, the store is the list of
+   entries in RocksDB (bytewise) order, "matching" = the stored key starts with the search prefix.
+
+   Proved for ascending order, for cells and for (ungrouped) transactions alike (the theorem is generic
+   in the entry type and the filter).  Descending order, the grouped page-boundary rule and the
+   cursor = Some [] corner are decided by the correspondence check only (C13 is claimed partial there):
+   their byte-level proofs mirror the ascending one over the reversed order and are not written yet. *)
+From Coq Require Import NArith List Bool Sorted.
+From LC Require Import Query QueryProofs.
+Import ListNotations.
 Open Scope N_scope.
-Theorem C13_placeholder : forall k, starts_with k [] = true.
-Proof. intros k. destruct k; reflexivity. Qed.
-Print Assumptions C13_placeholder.
+
+(* following last_cursor page by page with any limit >= 1 yields every matching entry that passes the
+   filters exactly once, in key order, and terminates (the fuel |db|+1 suffices) *)
+Theorem C13_pages_exact_cells :
+  forall tag raw al other f limit (db : list centry),
+    sorted_db ce_key db -> (1 <= limit)%nat ->
+    pages ce_key (cell_pass other f) tag raw al limit db (S (length db)) None
+    = filter (cell_pass other f) (scan ce_key tag raw al true None db).
+Proof. intros. apply pages_exact; assumption. Qed.
+Print Assumptions C13_pages_exact_cells.
+
+Theorem C13_pages_exact_txs :
+  forall tag raw al fs block limit (db : list tentry),
+    sorted_db te_key db -> (1 <= limit)%nat ->
+    pages te_key (tx_pass fs block) tag raw al limit db (S (length db)) None
+    = filter (tx_pass fs block) (scan te_key tag raw al true None db).
+Proof. intros. apply pages_exact; assumption. Qed.
+Print Assumptions C13_pages_exact_txs.
+
+(* the generic page is what get_cells / get_transactions compute *)
+Theorem C13_page_is_get_cells :
+  forall tag raw al other f limit cursor (db : list centry),
+    get_page ce_key (cell_pass other f) tag raw al limit db cursor = get_cells tag raw al other f true limit cursor db.
+Proof. reflexivity. Qed.
+Print Assumptions C13_page_is_get_cells.
+
+Theorem C13_page_is_get_txs :
+  forall tag raw al fs block limit cursor (db : list tentry),
+    get_page te_key (tx_pass fs block) tag raw al limit db cursor = get_txs tag raw al fs block true limit cursor db.
+Proof. reflexivity. Qed.
+Print Assumptions C13_page_is_get_txs.
+
+(* each filter removes exactly the entries outside it: a returned cell passes all five filters
+   (bounds as implemented) and belongs to the scan *)
+Theorem C13_filters_exact :
+  forall tag raw al other f asc limit cursor db page lk e,
+    get_cells tag raw al other f asc limit cursor db = (page, lk) ->
+    In e page -> cell_pass other f e = true /\ In e (scan ce_key tag raw al asc cursor db).
+Proof. exact get_cells_sound. Qed.
+Print Assumptions C13_filters_exact.
+
+(* get_cells_capacity is the capacity sum of exactly the cells get_cells returns for the same key *)
+Theorem C13_capacity_is_sum :
+  forall tag raw al other f db,
+    get_cells_capacity tag raw al other f db =
+    fold_right N.add 0 (map ce_cap (fst (get_cells tag raw al other f true
+         (length (scan ce_key tag raw al true None db)) None db))).
+Proof. exact capacity_is_sum. Qed.
+Print Assumptions C13_capacity_is_sum.
+
+(* non-vacuity: a sorted three-entry store, limit 1, three pages *)
+Example C13_example_pages :
+  let e k := mkCE [32; 7; k] k [] None 0 10 in
+  pages ce_key (cell_pass true (mkCF None None None None None)) 32 [7] 0 1 [e 1; e 2; e 5] 4 None = [e 1; e 2; e 5].
+Proof. vm_compute. reflexivity. Qed.
